@@ -8,6 +8,8 @@ import (
 	"sync/atomic"
 	"time"
 
+	"github.com/vimeo/dials"
+
 	"verifharness/conc"
 	"verifharness/fw"
 )
@@ -47,6 +49,10 @@ func c04Opts(r *fw.Rand) conc.Opts {
 
 func runC04(w *fw.Worker) {
 	w.Cases(func(i int, r *fw.Rand) {
+		if i%25 == 24 {
+			c04RejectThenShutdown(w, i, r)
+			return
+		}
 		if r.Chance(45) {
 			c04Sequential(w, i, r)
 		} else {
@@ -121,6 +127,7 @@ func c04Sequential(w *fw.Worker, i int, r *fw.Rand) {
 	var trace []string
 	curPtr := e.D.View()
 	enabled := !o.Delay
+	lastBySrc := map[int]*conc.Layer{}
 	for k := 0; k < n; k++ {
 		// optionally enable verification in delayed scenarios
 		if o.Delay && !enabled && r.Chance(15) {
@@ -148,7 +155,17 @@ func c04Sequential(w *fw.Worker, i int, r *fw.Rand) {
 		}
 		l := e.RandLayer(r, 30, 8)
 		before := len(e.CBLog())
-		res, err := e.Report(ctx, 0, src, l, true)
+		var res int
+		var err error
+		if prev := lastBySrc[src]; prev != nil && r.Chance(15) {
+			// the watcher re-sends the identical value object it reported last time
+			l = prev
+			res, err = e.ReReport(ctx, 0, src, l, true)
+			w.Count("identical_object_re_reports", 1)
+		} else {
+			res, err = e.Report(ctx, 0, src, l, true)
+		}
+		lastBySrc[src] = l
 		ns, inst := e.Model.Step(st, conc.In{Kind: conc.OpReport, Src: src, Layer: l, Blocking: true}, conc.Out{Res: res}), false
 		trace = append(trace, fmt.Sprintf("report src=%d %s -> res=%d err=%v", src, l, res, err))
 		if len(trace) > 12 {
@@ -488,4 +505,67 @@ func c04Concurrent(w *fw.Worker, i int, r *fw.Rand) {
 		}
 		w.Sample(map[string]any{"mode": "concurrent", "opts": fmt.Sprintf("%+v", o), "history_prefix": d})
 	}
+}
+
+// c04RejectThenShutdown: an update is rejected while the callback goroutine is
+// busy in an earlier (slow) callback, then every watcher calls Done and the
+// monitor exits. The queue never overflowed (one or two events), so the
+// rejection's OnWatchedError must still be delivered when the callback
+// goroutine catches up.
+func c04RejectThenShutdown(w *fw.Worker, i int, r *fw.Rand) {
+	o := conc.Opts{NSrc: 2}
+	e, err := conc.Start(context.Background(), r.U64(), o, nil)
+	if err != nil {
+		w.Violation(i, "config-failed", err.Error(), nil)
+		return
+	}
+	defer e.Stop()
+	tr := conc.NewCBTrace()
+	e.ExtraHook = func(name string, hctx context.Context, args []any) { tr.OnHook(e.S, name, hctx, args) }
+	ctx := e.S.Ctx
+	desc := map[string]any{"mode": "reject-then-shutdown"}
+	e.CBGate = make(chan struct{})
+	ok := e.RandLayer(r, 0, 0)
+	e.Report(ctx, 0, 0, ok, true)
+	if !conc.WaitUntil(func() bool { return e.InCB() > 0 }, 20*time.Second) {
+		w.Inconclusive(i, "callback goroutine never parked")
+		close(e.CBGate)
+		return
+	}
+	nRej := r.Range(1, 3)
+	for k := 0; k < nRej; k++ {
+		bad := e.RandLayer(r, 100, 0)
+		if res, _ := e.Report(ctx, 0, k%2, bad, true); res != conc.ResRejected {
+			w.Violation(i, "blocking-report-result-disagrees-with-model", "an invalid update was not rejected", desc)
+			close(e.CBGate)
+			return
+		}
+	}
+	for _, s := range e.Srcs {
+		s.WA().Done(ctx)
+	}
+	select {
+	case <-dials.VerifMonitorDone(e.D):
+	case <-time.After(20 * time.Second):
+		w.Inconclusive(i, "monitor exit not observed")
+		close(e.CBGate)
+		return
+	}
+	close(e.CBGate)
+	if !conc.WaitUntil(func() bool { return tr.Exited() }, 20*time.Second) {
+		w.Inconclusive(i, "callback goroutine exit not observed")
+		return
+	}
+	got := 0
+	for _, ev := range e.CBLog() {
+		if ev.Kind == "err" && strings.Contains(ev.Err, "harness: config invalid") {
+			got++
+		}
+	}
+	if got != nRej {
+		w.Violation(i, "rejection-error-lost-at-shutdown", fmt.Sprintf("%d updates were rejected while the callback goroutine was busy; after shutdown only %d OnWatchedError calls were made although the queue never overflowed", nRej, got), desc)
+		return
+	}
+	w.Count("rejections_checked_exactly", int64(nRej))
+	w.Count("reject_then_shutdown_cases", 1)
 }
